@@ -344,3 +344,8 @@ PROPS["C12"]["mir"] += [ob("inner_new_state", "ob_misc", "inner_new_state"), ob(
 PROPS["C07"]["mir"] += [ob("init_new_ids", "ob_misc", "init_new_ids"), ob("inner_new_state_c07", "ob_misc", "inner_new_state")]
 PROPS["C03"]["mir"].append(ob("init_new_ids_c03", "ob_misc", "init_new_ids"))
 PROPS["C09"]["mir"].append(ob("node_fits_block", "ob_tree", "node_fits_block"))
+
+_L8 = H("c17_hash_pinned_len8", "bloom hash dataflow = pinned aHash fallback for 8-byte inputs (the usual key size), alone", ["<AHasher as Hasher>::write", "AHasher::large_update", "read_small"],
+        "all inputs of exactly 8 bytes, both bloom hasher keys", covers=1, timeout=300, stubs=["folded_multiply -> mix_stub"])
+PROPS["C17"]["kani"].append(_L8)
+PROPS["C10"]["kani"].append(_L8)
